@@ -55,6 +55,11 @@ func checkC02(ctx *Ctx, r *Report) {
 	c06FourthHunt(ctx, r)                 // enum members named like other declarations; builders of named optionals
 	c09FifthHunt(ctx, r)                  // Python methods shadowing imported modules; integer bounds that overflow int64 in the generated Go
 	c09SixthHunt(ctx, r)                  // Go arguments hiding the packages their builder imports
+	if ts, err := loadTemplates(ctx, "golang"); err != nil {
+		r.Undecided("cannot parse golang templates: %v", err)
+	} else {
+		c13FifthHunt(ctx, r, ts, false) // references to enums that accept null; schema packages named after standard packages
+	}
 	c02RuntimeGuard(ctx, r)
 	c02SortedSearch(ctx, r)
 	c02SortedSearchSelfTest(ctx, r)
